@@ -2,6 +2,7 @@ package bigbuff
 
 import (
 	"context"
+	"fmt"
 	"sync"
 
 	"github.com/joeycumines/go-bigbuff/internal/v/vrt"
@@ -20,7 +21,7 @@ type psEnv struct {
 // manualSub: Add(1); up to k times { receive; Wait }; Add(-1). quit ends it early.
 func (e *psEnv) manualSub(id, k int, quit <-chan struct{}, subscribed chan<- struct{}) {
 	defer e.uwg.Done()
-	vrt.Log("subcall", id)
+	vrt.Log("subcall", id, "manual")
 	e.ps.Add(1)
 	vrt.Log("sub", id)
 	if subscribed != nil {
@@ -326,4 +327,59 @@ func init() {
 	vrt.Register(&vrt.Scenario{Name: "S-sub-cancelled", Props: []string{"C06:deliver-", "C07", "C11:race", "C12:goroutine-leak"},
 		Quick: 2, Thorough: 3, Desc: "SubscribeContext with an already cancelled context, called while a Send to a standing subscriber is in flight",
 		Run: psSubCancelled, Check: pubsubCheck})
+}
+
+// S-nil-yield: the iterator of a SubscribeContext subscription is called with a nil yield function
+// (documented: it panics, after making sure the subscription is withdrawn) before, after or
+// concurrently with the cancellation of its context: withdrawn exactly once in every case, so a
+// standing subscriber still gets the next message.
+func psNilYield(mode int) func() {
+	return func() {
+		e := newPsEnv()
+		ctx, cancel := context.WithCancel(context.Background())
+		for id := 2; id <= 3; id++ {
+			b := make(chan struct{})
+			e.uwg.Add(1)
+			go e.manualSub(id, 1, e.quit, b)
+			<-b
+		}
+		vrt.Log("subcall", 1)
+		seq := e.ps.SubscribeContext(ctx)
+		vrt.Log("sub", 1)
+		var wg sync.WaitGroup
+		switch mode {
+		case 0: // cancelled first; the asynchronous withdrawal may or may not have run yet
+			vrt.Log("unsubcall", 1)
+			cancel()
+		case 1: // cancelled concurrently
+			wg.Add(1)
+			go func() {
+				defer wg.Done()
+				vrt.Log("unsubcall", 1)
+				cancel()
+			}()
+		}
+		func() {
+			defer func() {
+				if r := recover(); r != nil {
+					vrt.Log("nil-yield-panic", fmt.Sprint(r))
+				}
+			}()
+			vrt.Log("unsubcall", 1)
+			seq(nil)
+			vrt.Log("nil-yield-returned")
+		}()
+		wg.Wait()
+		e.swg.Add(1)
+		go e.sender(1)
+		e.finish(psCancel{1, cancel})
+	}
+}
+
+func init() {
+	for mode, name := range []string{"S-nil-yield-after", "S-nil-yield-during", "S-nil-yield-before"} {
+		vrt.Register(&vrt.Scenario{Name: name, Props: []string{"C06:deliver-", "C07", "C11:race", "C12:goroutine-leak"},
+			Quick: 2, Thorough: 3, Desc: "the iterator of a SubscribeContext subscription is called with a nil yield function after / during / before the cancellation of its context; then a Send to two standing subscribers",
+			Run: psNilYield(mode), Check: pubsubCheck})
+	}
 }
